@@ -238,7 +238,7 @@ inductive Scan
   | tok (adv : Nat) (t : Token)
   | refill (st : PState) (carry off : Nat)
   | bomFill
-  deriving Repr
+  deriving DecidableEq, Repr
 
 /-- the `"` arm: `rest` = the window after the opening quote (offset `i + 1`) -/
 def quoteTok (rest : Bytes) (i : Nat) : Scan :=
